@@ -297,7 +297,11 @@ func gen(t *rapid.T) Case {
 			if s.Dst == s.Var {
 				s.Dst = varNames[(indexOf(s.Var)+1)%len(varNames)]
 			}
-			state[s.Dst] = clone(state[s.Var])
+			// one copy in three copies a structured sub-document (`c = $a.y`)
+			if cps := containerPaths(state[s.Var]); len(cps) > 0 && rapid.IntRange(0, 2).Draw(t, "subcopy") == 0 {
+				s.Path = rapid.SampledFrom(cps).Draw(t, "subpath")
+			}
+			state[s.Dst] = copySource(state[s.Var], s.Path)
 		case "assign", "fnarg", "fnpipe":
 			s.Path = genPath(t, state[s.Var])
 			s.Val = genScalar(t)
@@ -584,6 +588,38 @@ func applyAssign(doc any, path []string, x any, observed any) (newDoc any, note 
 // ---------------------------------------------------------------------------
 // program
 
+// copySource is what a copy step copies: the whole variable, or (Path set)
+// the sub-document at Path, which is a map or an array.
+func copySource(doc any, path []string) any {
+	if len(path) == 0 {
+		return clone(doc)
+	}
+	v, _ := lookup(doc, path)
+	return clone(v)
+}
+
+func copyRef(v string, path []string) string {
+	if len(path) == 0 {
+		return "$" + v
+	}
+	return murexPath(v, path)
+}
+
+// containerPaths lists the paths of doc that hold a map or an array.
+func containerPaths(doc any) [][]string {
+	var all, out [][]string
+	paths(doc, nil, &all)
+	for _, p := range all {
+		if v, ok := lookup(doc, p); ok {
+			switch v.(type) {
+			case map[string]any, []any:
+				out = append(out, p)
+			}
+		}
+	}
+	return out
+}
+
 func murexPath(v string, path []string) string { return "$" + v + "." + strings.Join(path, ".") }
 
 func (c Case) source() string {
@@ -598,7 +634,7 @@ func (c Case) source() string {
 		tag := strconv.Itoa(i + 1)
 		switch s.Op {
 		case "copy":
-			fmt.Fprintf(&b, "%s = $%s\n", s.Dst, s.Var)
+			fmt.Fprintf(&b, "%s = %s\n", s.Dst, copyRef(s.Var, s.Path))
 		case "assign":
 			fmt.Fprintf(&b, "%s = %s\n", murexPath(s.Var, s.Path), s.Val.src())
 		case "fnarg", "fnpipe":
@@ -859,7 +895,7 @@ func check(c Case) *core.Violation {
 		kp := ""
 		switch s.Op {
 		case "copy":
-			model[s.Dst] = clone(model[s.Var])
+			model[s.Dst] = copySource(model[s.Var], s.Path)
 			kp = "copy:"
 		case "assign":
 			nd, v := ru.checkAssign(tag, s.Var, model[s.Var], s, "")
@@ -925,8 +961,11 @@ func classify(c Case) core.Class {
 	for _, s := range c.Steps {
 		switch s.Op {
 		case "copy":
-			state[s.Dst] = clone(state[s.Var])
+			state[s.Dst] = copySource(state[s.Var], s.Path)
 			copies = true
+			if len(s.Path) > 0 {
+				feats["sub-document-copy"] = true
+			}
 		case "assign", "fnarg", "fnpipe":
 			class, _ := pathClass(state[s.Var], s.Path)
 			if s.Op != "assign" {
@@ -957,11 +996,11 @@ func classify(c Case) core.Class {
 		}
 	}
 	cl := core.Class{}
-	cl.NonTrivial = feats["assign-with-copy"] || feats["function-copy"] || feats["type-change"] || feats["new-path"] || feats["missing-intermediate"]
+	cl.NonTrivial = feats["assign-with-copy"] || feats["function-copy"] || feats["type-change"] || feats["new-path"] || feats["missing-intermediate"] || feats["sub-document-copy"]
 	// one label per case (the rarest feature present); every feature is also
 	// counted on its own in the extra counters
 	cl.Label = "trivial"
-	for _, f := range []string{"unsettable-path", "replace-container", "new-path", "type-change", "assign-with-copy", "function-copy", "missing-intermediate"} {
+	for _, f := range []string{"unsettable-path", "replace-container", "new-path", "type-change", "assign-with-copy", "function-copy", "missing-intermediate", "sub-document-copy"} {
 		if feats[f] {
 			cl.Label = f
 			core.Count("cases-with:"+f, 1)
@@ -1006,7 +1045,7 @@ var spec = core.Spec[Case]{
 		for _, s := range c.Steps {
 			switch s.Op {
 			case "copy":
-				fmt.Fprintf(&b, "%s = $%s\n", s.Dst, s.Var)
+				fmt.Fprintf(&b, "%s = %s\n", s.Dst, copyRef(s.Var, s.Path))
 			case "read":
 				fmt.Fprintf(&b, "read %s\n", murexPath(s.Var, s.Path))
 			default:
